@@ -150,6 +150,8 @@ class sx_float_t(metaclass=_FloatMeta):
 
 
 def sx_bytearray(it=(), *a):
+    if hasattr(it, 'sx_is_bytearray'):
+        return it
     if a:
         return builtins.bytearray(it, *a)
     if isinstance(it, (builtins.bytes, builtins.str)):
@@ -316,6 +318,9 @@ def sx_abs(x):
 def sx_len(x):
     if hasattr(x, 'sx_len'):
         return x.sx_len()
+    f = getattr(type(x), '__len__', None)
+    if f is not None and hasattr(f, '__code__'):
+        return f(x)           # Python-level __len__ may return a symbolic length; builtins.len would coerce it
     return builtins.len(x)
 
 
